@@ -9,5 +9,9 @@ CONSTANTS Mode = "obj"
  ResetCurFn = TRUE
  SkipSizeof = FALSE
  Emit = FALSE
+ Unb = FALSE
+ Fixed5 = TRUE
+ AlignAtCreation = FALSE
+ ReuseVisible = FALSE
 INVARIANTS ObjRefines FnRefines AWellFormed
 CHECK_DEADLOCK FALSE
